@@ -1059,3 +1059,127 @@ Qed.
 Example fmt_unknown_word_deleted :
   fmt (bs "use {braces} here, {RED}now") = bs "use  here, " ++ [3; 48; 52] ++ bs "now".
 Proof. vm_compute. reflexivity. Qed.
+
+(* ====================================================================================== *)
+(* StripRaw after Fmt, with the exact side condition                                      *)
+(* ====================================================================================== *)
+
+Lemma head_is_digit_eq s : head_is_digit s = head_digit s.
+Proof. reflexivity. Qed.
+
+Lemma comma_digit_cons c s : comma_digit (c :: s) = N.eqb c comma_c && head_digit s.
+Proof. destruct s; simpl; [now rewrite andb_false_r|reflexivity]. Qed.
+
+Lemma match_num_some_head s n : match_num s = Some n -> head_digit s = true.
+Proof.
+  intros H. destruct (head_digit s) eqn:E; [reflexivity|]. apply match_num_none in E. congruence.
+Qed.
+
+Lemma recolor_colour_sharp c R :
+  colour_ok c = true -> comma_digit R = false ->
+  recolor_aux 0 (colour_seq c ++ R) = recolor_aux 0 R.
+Proof.
+  unfold colour_ok. intros H HR. apply andb_true_iff in H as [_ H]. apply andb_true_iff in H as [H1 H2].
+  unfold colour_seq, two_digits. cbn [app]. rewrite recolor_aux_cons0. cbn [N.eqb Pos.eqb].
+  unfold match_color_tail. rewrite match_num_two by assumption. cbn [skipn].
+  destruct R as [|c0 R]; [reflexivity|]. rewrite comma_digit_cons in HR.
+  destruct (N.eqb c0 comma_c); [|reflexivity]. cbn [andb] in HR.
+  destruct (match_num R) as [n2|] eqn:M; [|reflexivity].
+  apply match_num_some_head in M. congruence.
+Qed.
+
+Lemma expected_comma_digit ps :
+  Forall known1 ps -> comma_digit (render ps) = false -> comma_digit (expected ps) = false.
+Proof.
+  intros HK. induction HK as [|p ps K HK IH]; intros H; [reflexivity|].
+  rewrite render_cons in H. rewrite expected_cons.
+  destruct p as [s|n|f b].
+  - cbn [render1 expected1] in *. destruct s as [|c s]; [now apply IH|].
+    destruct s as [|d s]; [|exact H].
+    cbn [app] in *. rewrite comma_digit_cons in *. destruct (N.eqb c comma_c); [|reflexivity].
+    cbn [andb] in *. apply (expected_head ps head_digit); auto.
+  - cbn [expected1]. cbn [known1] in K. destruct (colour_of n) as [c|] eqn:Ec; [reflexivity|].
+    destruct K as [K|K]; [congruence|]. destruct (code_of n) as [cb|] eqn:Ed; [|congruence].
+    apply code_value_cases in Ed.
+    destruct Ed as [->|[->|[->|[->|[->|[->| ->]]]]]]; cbn [app]; rewrite comma_digit_cons; reflexivity.
+  - cbn [expected1]. cbn [known1] in K. destruct K as [Kf Kb].
+    destruct (colour_of f) eqn:Ef; [|congruence]. destruct (colour_of b) eqn:Eb; [|congruence].
+    reflexivity.
+Qed.
+
+Lemma recolor_pieces_sharp ps :
+  lits_ok ctrl_free ps -> Forall known1 ps -> spaced_sharp ps ->
+  recolor_aux 0 (expected ps) = decolored ps.
+Proof.
+  intros HL HK. revert HL. induction HK as [|p ps K HK IH]; intros HL HS; [reflexivity|].
+  cbn [spaced_sharp] in HS. destruct HS as (HS1 & HS2 & HS).
+  assert (recolor_aux 0 (expected ps) = decolored ps) as IH'.
+  { apply IH; [intros s Hs; apply HL; now right|exact HS]. }
+  rewrite expected_cons. unfold decolored. cbn [map concat]. fold (decolored ps).
+  destruct p as [s|n|f b].
+  - cbn [expected1 decolored1]. rewrite recolor_copy; [now rewrite IH'|].
+    apply ctrl_free_no3, HL. now left.
+  - cbn [expected1 decolored1]. cbn [known1] in K. cbn [single_colour] in HS1. cbn [clear_tok] in HS2.
+    destruct (colour_of n) as [c|] eqn:Ec.
+    + specialize (HS1 eq_refl).
+      rewrite recolor_colour_sharp; [exact IH'|eapply colour_lookup_ok; exact Ec|].
+      now apply expected_comma_digit.
+    + destruct K as [K|K]; [congruence|]. destruct (code_of n) as [cb|] eqn:Ed; [|congruence].
+      pose proof (code_value_cases _ _ Ed) as Cases.
+      destruct Cases as [->|[->|[->|[->|[->|[->| ->]]]]]];
+        try (cbn [app]; rewrite recolor_aux_cons0; cbn [N.eqb Pos.eqb]; now rewrite IH').
+      specialize (HS2 eq_refl).
+      cbn [app]. rewrite recolor_bare; [now rewrite IH'|].
+      apply (expected_head ps head_digit); auto.
+  - cbn [expected1 decolored1]. cbn [known1] in K. destruct K as [Kf Kb].
+    destruct (colour_of f) as [cf|] eqn:Ef; [|congruence].
+    destruct (colour_of b) as [cb|] eqn:Eb; [|congruence].
+    rewrite recolor_pair; [exact IH'| |]; eapply colour_lookup_ok; eassumption.
+Qed.
+
+Lemma strip_fmt_pieces_sharp ps :
+  lits_ok (fun s => no_open s /\ ctrl_free s) ps -> Forall known1 ps -> spaced_sharp ps ->
+  strip_raw (fmt (render ps)) = literals ps.
+Proof.
+  intros HL HK HS.
+  assert (lits_ok no_open ps) as H1 by (intros s Hs; exact (proj1 (HL s Hs))).
+  assert (lits_ok ctrl_free ps) as H2 by (intros s Hs; exact (proj2 (HL s Hs))).
+  rewrite fmt_pieces by assumption. rewrite strip_raw_filter. unfold recolor.
+  rewrite recolor_pieces_sharp by assumption. now apply filter_decolored.
+Qed.
+
+(* the stated condition implies the exact one *)
+Lemma spaced_implies_sharp ps : spaced colourish ps -> spaced_sharp ps.
+Proof.
+  induction ps as [|p r IH]; [auto|]. cbn [spaced spaced_sharp]. intros [H HS].
+  split; [|split; [|auto]].
+  - intros Hp. assert (colourish p = true) as C.
+    { destruct p as [s|n|f b]; try discriminate. cbn [single_colour colourish] in *. destruct (colour_of n); [reflexivity|discriminate]. }
+    specialize (H C). destruct (render r) as [|c [|d s]]; try reflexivity.
+    simpl in H |- *. apply orb_false_iff in H as [_ H]. now rewrite H.
+  - intros Hp. assert (colourish p = true) as C.
+    { destruct p as [s|n|f b]; try discriminate. cbn [clear_tok colourish] in *. destruct (colour_of n); [discriminate|exact Hp]. }
+    specialize (H C). destruct (render r) as [|c s]; [reflexivity|].
+    simpl in H |- *. now apply orb_false_iff in H as [H _].
+Qed.
+
+(* digits straight after colour tokens, anything after a pair: all harmless *)
+Example strip_fmt_sharp_example :
+  let ps := [Tok (bs "red"); Lit (bs "1234"); Tok2 (bs "red") (bs "yellow"); Lit (bs ",5 and 6");
+             Tok (bs "blue"); Lit (bs ", ok"); Tok (bs "c"); Lit (bs ",7")] in
+  lits_ok (fun s => no_open s /\ ctrl_free s) ps /\ Forall known1 ps /\ spaced_sharp ps /\
+  ~ spaced colourish ps /\
+  strip_raw (fmt (render ps)) = bs "1234,5 and 6, ok,7".
+Proof.
+  cbv zeta. split; [|split; [|split; [|split]]].
+  - intros s [H|[H|[H|[H|[H|[H|[H|[H|[]]]]]]]]]; try discriminate; injection H as <-; split;
+      try (vm_compute; intuition discriminate);
+      intros x Hx; vm_compute in Hx;
+      repeat (destruct Hx as [<-|Hx]; [reflexivity|]); destruct Hx.
+  - repeat (apply Forall_cons;
+      [vm_compute; ((left; discriminate) || (right; discriminate) || (split; discriminate) || exact I)|]).
+    apply Forall_nil.
+  - vm_compute. intuition discriminate.
+  - vm_compute. intros [H _]. specialize (H eq_refl). discriminate.
+  - vm_compute. reflexivity.
+Qed.
